@@ -11,8 +11,6 @@ import (
 	"sort"
 	"strings"
 
-	vmcommon "github.com/ElrondNetwork/elrond-vm-common"
-
 	"verifsim/spec"
 	"verifsim/world"
 )
@@ -130,7 +128,7 @@ func (g *Gen) Holdings() []Holding {
 	var out []Holding
 	for _, nd := range g.W.Nodes {
 		for _, a := range nd.Store.SortedAddrs() {
-			if a == string(vmcommon.SystemAccountAddress) {
+			if a == string(spec.SystemAccount) {
 				continue
 			}
 			acc := nd.Store.Accts[a]
@@ -206,7 +204,7 @@ func (g *Gen) advDest(self []byte) []byte {
 	case 0:
 		return append([]byte{}, self...)
 	case 1:
-		return append([]byte{}, vmcommon.ESDTSCAddress...)
+		return append([]byte{}, spec.ESDTSystemSC...)
 	case 2:
 		return g.W.U.MetaAddrs[g.R.Intn(len(g.W.U.MetaAddrs))]
 	case 3:
